@@ -7,7 +7,6 @@ import (
 	"math/rand/v2"
 	"strings"
 
-	"verif/internal/harness"
 )
 
 type textLevel struct {
@@ -17,20 +16,22 @@ type textLevel struct {
 	nests     []int
 	randoms   int
 	bigDigits int
+	embedded  bool   // reduced generator for strings inside JSON documents
+	nodeExp   string // exponent used in hostile strings placed inside JSON documents
 }
 
-func textLevelOf(b *harness.B, light bool) textLevel {
+func textLevelOf(b *recB, light bool) textLevel {
 	switch {
 	case light:
-		return textLevel{valids: 2, flips: 40, jsonNodes: 25, nests: []int{100, 10001}, randoms: 4, bigDigits: 20000}
+		return textLevel{valids: 2, flips: 40, jsonNodes: 10, nests: []int{100, 10001}, randoms: 4, bigDigits: 20000, nodeExp: "100000"}
 	case b.Quick():
-		return textLevel{valids: 4, flips: 160, jsonNodes: 90, nests: []int{31, 100, 9999, 10001, 100000}, randoms: 10, bigDigits: 100000}
+		return textLevel{valids: 4, flips: 160, jsonNodes: 28, nests: []int{31, 100, 9999, 10001, 100000}, randoms: 10, bigDigits: 100000, nodeExp: "100000"}
 	default:
-		return textLevel{valids: 40, flips: 1500, jsonNodes: 1200, nests: []int{31, 100, 9999, 10001, 100000, 1000000, 4000000}, randoms: 100, bigDigits: 1000000}
+		return textLevel{valids: 40, flips: 1500, jsonNodes: 1200, nests: []int{31, 100, 9999, 10001, 100000, 1000000, 4000000}, randoms: 100, bigDigits: 1000000, nodeExp: "1000000"}
 	}
 }
 
-func runText(b *harness.B, m *mon, seg segSpec) {
+func runText(b *recB, m *mon, seg segSpec) {
 	lv := textLevelOf(b, seg.Light)
 	for _, name := range seg.Entries {
 		e, ok := textByName(name)
@@ -53,7 +54,7 @@ func runText(b *harness.B, m *mon, seg segSpec) {
 		if v != nil && v[1] > 0 {
 			b.Count("own_text_output_rejected(observed; judged by C20)", v[1])
 		}
-		if m.skip == 0 && (v == nil || v[0] == 0) {
+		if m.skip == 0 && !m.abandon[name] && (v == nil || v[0] == 0) {
 			b.Inconclusive("no own valid output of " + name + " was accepted: attacks derived from valid outputs are weak")
 		}
 		if a > 0 && seg.Own {
@@ -61,6 +62,7 @@ func runText(b *harness.B, m *mon, seg segSpec) {
 			b.Count("decode_entry_points_match", 1)
 			b.SetAdd("entry_points_text_json", name)
 		}
+		b.checkpoint()
 		for cls, o := range f.outcomes {
 			b.Count("text_class:"+cls+":value", o[0])
 			b.Count("text_class:"+cls+":error", o[1])
@@ -106,12 +108,11 @@ func splice(s []byte, i, j int, repl string) []byte {
 	return append(out, s[j:]...)
 }
 
-func hostileNumbers(bigDigits int) [][3]string {
+func hostileNumbers(bigDigits int, exp string) [][3]string {
 	return [][3]string{
-		{"exponent", "1e1000000", "1e1000000"},
-		{"exponent", "1e-1000000", "1e-1000000"},
-		{"exponent", "1e100000", "1e100000"},
-		{"exponent", "9e9999999", "9e9999999"},
+		{"exponent", "1e" + exp, "1e" + exp},
+		{"exponent", "1e-" + exp, "1e-" + exp},
+		{"exponent", "1e10000", "1e10000"},
 		{"exponent", "1E400", "1E400"},
 		{"exponent", "0.1e2", "0.1e2"},
 		{"exponent", "1e18446744073709551616", "1e18446744073709551616"},
@@ -142,10 +143,19 @@ func hostileNumbers(bigDigits int) [][3]string {
 }
 
 // textAttacks derives hostile strings from one valid output.
-func textAttacks(orig []byte, rng *rand.Rand, lv textLevel, emit func(tatk)) {
+func textAttacks(orig []byte, rng *rand.Rand, lv textLevel, exp string, emit func(tatk)) {
 	n := len(orig)
+	// numeric tokens
+	for _, r := range runs(orig, isDigitish, 1) {
+		for _, h := range hostileNumbers(lv.bigDigits, exp) {
+			emit(tatk{h[0], h[1], splice(orig, r[0], r[1], h[2])})
+		}
+	}
 	// prefixes
 	for k := 0; k < n && k < 200; k++ {
+		if lv.embedded && k%7 != 3 {
+			continue
+		}
 		emit(tatk{"prefix", sizeClass(k), orig[:k]})
 	}
 	// byte edits
@@ -169,12 +179,6 @@ func textAttacks(orig []byte, rng *rand.Rand, lv textLevel, emit func(tatk)) {
 			emit(tatk{"edit", "insert", splice(orig, p, p, string(special[rng.IntN(len(special))]))})
 		}
 	}
-	// numeric tokens
-	for _, r := range runs(orig, isDigitish, 1) {
-		for _, h := range hostileNumbers(lv.bigDigits) {
-			emit(tatk{h[0], h[1], splice(orig, r[0], r[1], h[2])})
-		}
-	}
 	// hex tokens
 	for _, r := range runs(orig, isHex, 8) {
 		tok := string(orig[r[0]:r[1]])
@@ -185,6 +189,9 @@ func textAttacks(orig []byte, rng *rand.Rand, lv textLevel, emit func(tatk)) {
 		} {
 			emit(tatk{h[0], sizeClass(len(h[1])), splice(orig, r[0], r[1], h[1])})
 		}
+	}
+	if lv.embedded {
+		return
 	}
 	// duplication and separators
 	emit(tatk{"dup", "twice", append(cp(orig), orig...)})
@@ -225,7 +232,7 @@ func textAttacks(orig []byte, rng *rand.Rand, lv textLevel, emit func(tatk)) {
 	}
 }
 
-func fuzzTextEntry(b *harness.B, f *feeder, e tEntry, rng *rand.Rand, lv textLevel) {
+func fuzzTextEntry(b *recB, f *feeder, e tEntry, rng *rand.Rand, lv textLevel) {
 	var valids [][]byte
 	seen := map[string]bool{}
 	for i := 0; i < lv.valids*3 && len(valids) < lv.valids; i++ {
@@ -250,13 +257,16 @@ func fuzzTextEntry(b *harness.B, f *feeder, e tEntry, rng *rand.Rand, lv textLev
 	f.flush() // calibrate
 
 	for vi, v := range valids {
+		if e.Kind == "json" && vi >= 2 && lv.valids <= 4 {
+			break
+		}
 		if e.Kind == "json" {
 			jsonAttacks(v, rng, lv, func(a tatk) { f.add(a.class, a.sub, a.data) })
 			// the text attacks on the document as a whole (reduced)
 			if vi == 0 {
 				l2 := lv
 				l2.flips /= 2
-				textAttacks(v, rng, l2, func(a tatk) {
+				textAttacks(v, rng, l2, lv.nodeExp, func(a tatk) {
 					if a.class == "exponent" || a.class == "digits" || a.class == "numeric" || a.class == "overlong-hex" || a.class == "odd-hex" || a.class == "short-hex" || a.class == "nonhex" {
 						if rng.IntN(4) != 0 {
 							return // these are applied per node by jsonAttacks
@@ -271,7 +281,7 @@ func fuzzTextEntry(b *harness.B, f *feeder, e tEntry, rng *rand.Rand, lv textLev
 			l2 := lv
 			l2.nests = nil
 			l2.randoms = 1
-			textAttacks(v, rng, l2, func(a tatk) {
+			textAttacks(v, rng, l2, "1000000", func(a tatk) {
 				if a.class == "bulk" {
 					return
 				}
@@ -279,9 +289,27 @@ func fuzzTextEntry(b *harness.B, f *feeder, e tEntry, rng *rand.Rand, lv textLev
 			})
 			continue
 		}
-		textAttacks(v, rng, lv, func(a tatk) { f.add(a.class, a.sub, a.data) })
+		textAttacks(v, rng, lv, "1000000", func(a tatk) { f.add(a.class, a.sub, a.data) })
 	}
-	// as a JSON string too for text entry points reached through encoding/json: covered by the composite JSON entries
+	// cross-seeding: the own valid outputs of the OTHER text formats of the repository
+	// (e.g. a currency with a unit for Currency.UnmarshalText, whose own output is a bare integer)
+	if e.Kind != "json" {
+		l2 := lv
+		l2.flips = 8
+		l2.embedded = true
+		l2.bigDigits = 5000
+		for _, o := range textRegistry() {
+			if o.Kind == "json" || o.Name == e.Name {
+				continue
+			}
+			cv := o.Valid(rng)
+			if cv == nil {
+				continue
+			}
+			f.add("cross-valid", o.Name, cv)
+			textAttacks(cv, rng, l2, "1000000", func(a tatk) { f.add(a.class, "cross/"+a.sub, a.data) })
+		}
+	}
 }
 
 // ---------------------------------------------------------------------------
@@ -414,7 +442,7 @@ func jsonAttacks(doc []byte, rng *rand.Rand, lv textLevel, emit func(tatk)) {
 	hostileNums := []string{"-1", "0", "1", "255", "256", "65535", "65536", "4294967295", "4294967296", "9223372036854775807", "9223372036854775808", "18446744073709551615", "18446744073709551616",
 		"1e400", "1e19", "1.5", "-0", "1e-400", "1E2", strings.Repeat("9", 5000), "0." + strings.Repeat("0", 5000) + "1", "340282366920938463463374607431768211456"}
 
-	for _, tg := range targets {
+	for ti, tg := range targets {
 		idx := 0
 		node, ok := nodeAt(root, tg, &idx)
 		if !ok {
@@ -440,7 +468,7 @@ func jsonAttacks(doc []byte, rng *rand.Rand, lv textLevel, emit func(tatk)) {
 		}
 		// deep nesting in place of the node
 		for _, d := range lv.nests {
-			if d > 100000 {
+			if d > 100000 || (d > 1000 && ti >= 3) {
 				continue
 			}
 			d := d
@@ -454,8 +482,11 @@ func jsonAttacks(doc []byte, rng *rand.Rand, lv textLevel, emit func(tatk)) {
 		switch x := node.(type) {
 		case map[string]any:
 			// huge / negative / out-of-range map keys and indices
-			for _, k := range hostileKeys {
-				for _, kv := range keyVals {
+			for ki, k := range hostileKeys {
+				for vi, kv := range keyVals {
+					if vi > 0 && ki >= 4 {
+						continue
+					}
 					k, kv := k, kv
 					out("jsonkey", "add/"+k+"/"+kv.sub, tg, func(n any) any {
 						m := map[string]any{}
@@ -506,20 +537,19 @@ func jsonAttacks(doc []byte, rng *rand.Rand, lv textLevel, emit func(tatk)) {
 					return rawJSON("[" + strings.Repeat("{},", rep-1) + "{}]")
 				})
 			}
-			out("jsonarray", "mixed", tg, func(n any) any { return append(append([]any{}, n.([]any)...), nil, "x", json.Number("1"), []any{}, map[string]any{}) })
+			out("jsonarray", "mixed", tg, func(n any) any {
+				return append(append([]any{}, n.([]any)...), nil, "x", json.Number("1"), []any{}, map[string]any{})
+			})
 		case string:
 			l2 := lv
-			l2.flips = 12
-			l2.randoms = 1
-			l2.nests = []int{100}
-			textAttacks([]byte(x), rng, l2, func(a tatk) {
-				if a.class == "bulk" || (a.class == "prefix" && len(a.data)%5 != 0) {
-					return
-				}
+			l2.flips = 6
+			l2.embedded = true
+			l2.bigDigits = 5000
+			textAttacks([]byte(x), rng, l2, lv.nodeExp, func(a tatk) {
 				s := string(a.data)
 				out("jsonstr-"+a.class, a.sub, tg, func(any) any { return s })
 			})
-			for _, s := range []string{"1e1000000 SC", "1e1000000", "-1", "0", "340282366920938463463374607431768211456", strings.Repeat("f", 200), "ed25519:" + strings.Repeat("a", 130), "1::" + strings.Repeat("b", 130),
+			for _, s := range []string{"1e" + lv.nodeExp + " SC", "1e-" + lv.nodeExp + " SC", "1e" + lv.nodeExp, "-1", "0", "340282366920938463463374607431768211456", strings.Repeat("f", 200), "ed25519:" + strings.Repeat("a", 130), "1::" + strings.Repeat("b", 130),
 				"addr:" + strings.Repeat("c", 200), "v1.2.3junk", "v256.0.0", "\u0000", strings.Repeat("a", 1<<16)} {
 				s := s
 				cls := "jsonstr-hostile"
